@@ -843,6 +843,15 @@ func (ex *Exec) modelExternal(name string, callee *ssa.Function, args []Val, g s
 		return boolVal(app("strContains", args[0].T, args[1].T)), true
 	case "(go/token.Pos).IsValid":
 		return boolVal(not(eq(args[0].T, "0"))), true
+	case "strconv.Unquote":
+		// a function of its argument (what the literal denotes, and whether it is well formed)
+		u.declareFun("spec$unquote", []string{SStr}, SStr)
+		u.declareFun("ext$unquoteErr", []string{SStr}, SIface)
+		sig := callee.Signature.Results()
+		return Val{Typ: sig, Tuple: []Val{{T: app("spec$unquote", args[0].T), Typ: sig.At(0).Type()}, {T: app("ext$unquoteErr", args[0].T), Typ: sig.At(1).Type()}}}, true
+	case "strings.Trim":
+		u.declareFun("ext$trim", []string{SStr, SStr}, SStr)
+		return Val{T: app("ext$trim", args[0].T, args[1].T), Typ: callee.Signature.Results().At(0).Type()}, true
 	}
 	_ = u
 	return Val{}, false
